@@ -1,11 +1,20 @@
 import PycModel.Spec.Decl
 import PycModel.Properties.Tables
+import PycModel.Proofs.DeclSkel
 /-!
 # C03 — declaration ASTs encode C declarator semantics
 
 Specification: `Spec/Decl.lean` (`Declarator`, `denote` = C99 6.7.5's inside-out rule, `chainVal`,
 `declCase`).  Full statement (kept visible): for every declarator `D`, base specifier list and
 context, the parser model returns `chainVal … (denote D)` on `render D`.
+
+Proved for inputs of any size (`Proofs/TypeModify.lean`, `Proofs/DeclSkel.lean`): the splice step
+`_type_modify_decl` appends modifier chains of any length (`type_modify_appends`), and for every named
+declarator built from pointers with qualifiers, array suffixes with an optional bound expression,
+empty function suffixes and parentheses, `_parse_declarator_kind` returns the chain of derivations
+that `denote` prescribes (`declarators_are_read_inside_out`, `chain_is_denote`).  Not covered by a
+theorem: parameter lists, abstract declarators, `static` / qualifiers / `*` inside brackets, and the
+declaration around the declarator (specifiers, initializers, several declarators).
 -/
 namespace PycModel.C03
 open PycModel PycModel.Spec
@@ -39,5 +48,113 @@ theorem ident_ofDerivs (n : Option String) (ds : List Deriv) : (ofDerivs n ds).i
   cases ds with
   | nil => simp [ofDerivs, Declarator.ident]
   | cons d r => simp [ofDerivs, ident_ofDerivs_go, Declarator.ident]
+
+/-! ## the parser model on declarators of any size -/
+open PycModel.TypeModify in
+/-- **`_type_modify_decl` appends.** A declarator whose modifier chain (outermost first) is `ms`
+around the `TypeDecl` `td`, modified by the chain `ns` whose tail is still `None`, becomes the
+declarator with chain `ms ++ ns` around `td` - for chains of any length.  (So a suffix or a pointer
+that is parsed later ends up *further from the name*: C's inside-out rule.) -/
+theorem type_modify_appends (ms ns : List M) (td : Val) (hns : ns ≠ []) (htd : td.isCls .TypeDecl = true)
+    (s : PState) :
+    typeModifyDecl (chainVal ms td) (chainVal ns .none) s = .ok (chainVal (ms ++ ns) td) s :=
+  typeModify_chain ms ns td hns htd s
+
+open PycModel.DeclSkel PycModel.TypeModify PycModel.View in
+/-- **Declarators are read inside-out, whatever their size.** For every declarator `d` of
+`D ::= name | ( D ) | * quals ... D | D [ X? ] | D ( )` that the grammar derives (`WFD`: suffixes
+apply to direct declarators, so a pointer needs parentheses to take a suffix), from every parser
+state that sees its tokens followed by something that is no further suffix,
+`_parse_declarator_kind` returns the modifier chain `d.chain` around the `TypeDecl` carrying the
+name, and consumes exactly the tokens of `d`.  Nothing is assumed about the parser. -/
+theorem declarators_are_read_inside_out (d : D) (hwf : WFD d) (s : PState) (rest : List Tk)
+    (hs : SeesT s (d.flat ++ rest)) (hfo : FollowD rest) (F : Nat) (hF : d.fuel ≤ F) :
+    ∃ s', run F (.declaratorKind .id true) s = .ok (chainVal (d.chain s.idx) (d.td s.idx)) s' ∧ SeesT s' rest ∧
+      s'.idx = s.idx + d.ntoks :=
+  parse_declarator d hwf s rest hs hfo F hF
+
+/-- a derivation without its bound / parameters: what the inside-out rule orders -/
+inductive R where
+  | ptr (quals : List String)
+  | arr
+  | fn
+  deriving DecidableEq, Repr
+
+def derivR : Deriv → R
+  | .ptr q => .ptr q
+  | .arr _ => .arr
+  | .fn _ => .fn
+
+open PycModel.TypeModify in
+def modR : M → R
+  | .ptr q _ => .ptr (q.filterMap fun v => match v with | .str s => some s | _ => none)
+  | .arr .. => .arr
+  | .fn .. => .fn
+
+open PycModel.DeclSkel in
+/-- the standard's syntax tree of a declarator of the fragment (a star list is nested pointers) -/
+def toSpec : D → Declarator
+  | .name x => .name (some x)
+  | .paren d => .paren (toSpec d)
+  | .ptr stars d => stars.foldr (fun q acc => .ptr (q.map (·.2)) acc) (toSpec d)
+  | .arr d _ => .arr (toSpec d) .empty
+  | .fn0 d => .fn (toSpec d) .none
+
+theorem denote_stars (stars : List (List View.Tk)) (d : Declarator) :
+    denote (stars.foldr (fun q acc => .ptr (q.map (·.2)) acc) d) =
+      denote d ++ (stars.map fun q => Deriv.ptr (q.map (·.2))).reverse := by
+  induction stars with
+  | nil => simp
+  | cons q r ih => simp [denote, ih, List.append_assoc]
+
+open PycModel.DeclSkel PycModel.TypeModify in
+theorem starPairs_R : ∀ (n : Nat) (stars : List (List View.Tk)),
+    ((starPairs n stars).map pairM).map modR = stars.map fun q => R.ptr (q.map (·.2))
+  | _, [] => rfl
+  | n, q :: r => by
+    simp only [starPairs, List.map_cons, starPairs_R (n + 1 + q.length) r, pairM, modR, List.cons.injEq, and_true]
+    congr 1
+    induction q with
+    | nil => rfl
+    | cons t q ih => simp [List.filterMap_cons, ih]
+
+open PycModel.DeclSkel PycModel.TypeModify in
+/-- **The chain the parser builds is the standard's denotation**: the kinds (and pointer
+qualifiers) of `d.chain`, outermost first, are exactly C99 6.7.5's derivations of the declarator,
+from the declared name outwards. -/
+theorem chain_is_denote (d : D) : ∀ n, (d.chain n).map modR = (denote (toSpec d)).map derivR := by
+  induction d with
+  | name x => intro n; rfl
+  | paren d ih => intro n; simpa [D.chain, toSpec, denote] using ih (n + 1)
+  | ptr stars d ih =>
+    intro n
+    simp only [D.chain, toSpec, List.map_append, List.map_reverse, ih, denote_stars, starPairs_R]
+    simp [List.map_reverse, derivR, Function.comp_def]
+  | arr d dim ih => intro n; simp [D.chain, toSpec, denote, ih, modR, derivR]
+  | fn0 d ih => intro n; simp [D.chain, toSpec, denote, ih, modR, derivR]
+
+open PycModel.DeclSkel PycModel.TypeModify PycModel.View PycModel.FullExpr in
+/-- non-vacuity: `* const ( * a [ 3 ] ) ( ) ;` - `a` is an array of 3 pointers to functions returning
+a `const` pointer: the array is outermost, the `const` pointer innermost -/
+example : ∃ s',
+    run 100 (.declaratorKind .id true)
+      (initState ([("TIMES", "*"), ("CONST", "const"), ("LPAREN", "("), ("TIMES", "*"), ("ID", "a"), ("LBRACKET", "["),
+                   ("INT_CONST_DEC", "3"), ("RBRACKET", "]"), ("RPAREN", ")"), ("LPAREN", "("), ("RPAREN", ")"),
+                   ("SEMI", ";")].map (fun t => SEv.tok t.1 t.2) ++ [.eof]))
+      = .ok (mk .ArrayDecl (tc 4) [
+              mk .PtrDecl (tc 3) [.list [],
+                mk .FuncDecl (tc 4) [.none,
+                  mk .PtrDecl (tc 0) [.list [.str "const"],
+                    mk .TypeDecl (tc 4) [.str "a", .none, .none, .none]]]],
+              mk .Constant (tc 6) [.str "int", .str "3"], .list []]) s' ∧ SeesT s' [("SEMI", ";")] := by
+  let d : D := .ptr [[("CONST", "const")]] (.fn0 (.paren (.ptr [[]] (.arr (.name "a") (some (.const "INT_CONST_DEC" "3" "int"))))))
+  have hwf : WFD d := by
+    refine .ptr _ _ (by simp) (by decide) (.fn0 _ (.paren _ (.ptr _ _ (by simp) (by simp) (.arr _ _ (.name _) rfl ?_) rfl)) rfl) rfl
+    intro e h; cases h; exact .const _ _ _ _ (by decide)
+  have hs := ParenExpr.seesT_init [("TIMES", "*"), ("CONST", "const"), ("LPAREN", "("), ("TIMES", "*"), ("ID", "a"), ("LBRACKET", "["),
+    ("INT_CONST_DEC", "3"), ("RBRACKET", "]"), ("RPAREN", ")"), ("LPAREN", "("), ("RPAREN", ")"), ("SEMI", ";")]
+  obtain ⟨s', hr, hs', _⟩ := parse_declarator d hwf _ [("SEMI", ";")] hs
+    (by intro k v r h; cases h; exact ⟨by decide, by decide⟩) 100 (by decide)
+  exact ⟨s', hr, hs'⟩
 
 end PycModel.C03
